@@ -1,5 +1,6 @@
 import Drivers.PenShow
 import DimodModel.Reduce
+import DimodModel.PolyObject
 open Wire Pen PenShow Red
 
 /-! Line-protocol driver for the C15 models (`DimodModel/Reduce.lean`).
@@ -23,6 +24,10 @@ open Wire Pen PenShow Red
         strength `-` : `polymorph_response(response, poly, bqm)` itself with `penalty_strength=None` (`Red.polymorphRecord`)
       → ok <variables>|<field names hex>|<penalty_satisfaction dtype>|<vartype>|<info hexkey=o.<hex> / r.<reduction> / s.<strength> &...>|<records sample:energy:sat:vectors;...>
       → err ValueError | err KeyError | err ValueError:dup
+    hist <SPIN|BINARY> <terms> <ops: op!op!… | ->         the `BinaryPolynomial` object after a history of mutations (`Red.objectAfter`)
+         op: set@<term>@<bias> | iadd@<term>@<bias> | del@<term> | popitem | scale@<c>@<ignored term|term… or -> |
+             norm@<lo>,<hi>@<lo>,<hi>@<ignored or -> | relabel@old>new,old>new…      (term: lab&lab&…, empty for the constant)
+      → ok <terms> | err KeyError | err ZeroDivisionError | err ValueError | conflict-not-modelled
 -/
 
 def parseTerm (s : String) : Option (List Label × Rat) :=
@@ -101,8 +106,49 @@ def showHocErr : HocErr → String
   | .energiesKeyError => "err KeyError"
   | .duplicateField => "err ValueError:dup"
 
+def parseTermOnly (s : String) : Option (List Label) := if s = "" then some [] else (s.splitOn "&").mapM parseLabel?
+def parseIgn (s : String) : Option (List (List Label)) := if s = "-" then some [] else (s.splitOn "|").mapM parseTermOnly
+def parseRatPair (s : String) : Option (Rat × Rat) :=
+  match s.splitOn "," with
+  | [a, b] => do let a ← parseRat? a; let b ← parseRat? b; pure (a, b)
+  | _ => none
+def parsePolyOp (s : String) : Option PolyOp :=
+  match s.splitOn "@" with
+  | ["set", t, b] => do let t ← parseTermOnly t; let b ← parseRat? b; pure (.setItem t b)
+  | ["iadd", t, b] => do let t ← parseTermOnly t; let b ← parseRat? b; pure (.addItem t b)
+  | ["del", t] => do let t ← parseTermOnly t; pure (.delItem t)
+  | ["popitem"] => some .popItem
+  | ["scale", c, ig] => do let c ← parseRat? c; let ig ← parseIgn ig; pure (.scale c ig)
+  | ["norm", l, p, ig] => do
+    let l ← parseRatPair l; let p ← parseRatPair p; let ig ← parseIgn ig
+    pure (.normalize { linLo := l.1, linHi := l.2, polyLo := p.1, polyHi := p.2 } ig)
+  | ["relabel", m] => do
+    let ps ← (m.splitOn ",").mapM fun e =>
+      match e.splitOn ">" with
+      | [a, b] => do let a ← parseLabel? a; let b ← parseLabel? b; pure (a, b)
+      | _ => none
+    pure (.relabel ps)
+  | ["relabelvia", m] => do
+    let ps ← (m.splitOn ",").mapM fun e =>
+      match e.splitOn ">" with
+      | [a, b] => do let a ← parseLabel? a; let b ← parseLabel? b; pure (a, b)
+      | _ => none
+    pure (.relabelVia ps)
+  | _ => none
+def parsePolyOps (s : String) : Option (List PolyOp) := if s = "-" then some [] else (s.splitOn "!").mapM parsePolyOp
+
 def answer (line : String) : String :=
   match line.trimAscii.toString.splitOn " " with
+  | ["hist", vt, terms, ops] =>
+    match vtOf? vt, parseRaw terms, parsePolyOps ops with
+    | some vt, some raw, some ops =>
+      match objectAfter vt raw ops with
+      | .ok s => "ok " ++ showPoly s
+      | .error .keyError => "err KeyError"
+      | .error .zeroDivision => "err ZeroDivisionError"
+      | .error .valueError => "err ValueError"
+      | .error .conflictNotModelled => "conflict-not-modelled"
+    | _, _, _ => "bad-op"
   | ["norm", vt, terms] =>
     match vtOf? vt, parseRaw terms with
     | some vt, some raw => "ok " ++ showPoly (normPoly vt raw)
